@@ -54,12 +54,14 @@ CLAIMED = {
               "(right wedge, either orientation of the slanted facet), RHP/HEX with 9 entries (rotate by 60° and 120°), REC "
               "with 10 and 12 entries (elliptical cylinder through transformation_quad), ELL in both forms (spheroid in "
               "the frame chosen by the converter, any of its three choices of the second axis) and TRC (either radius "
-              "larger, any axis, all four branches of convert_cone) the k-th emitted signed surface is MCNP's k-th "
+              "larger, any axis, all four branches of convert_cone) and ARB the k-th emitted signed surface is MCNP's k-th "
               "facet with the outward side positive (BodyOK); hence a negative reference selects exactly the points "
               "inside every facet, a positive reference the points outside some facet (body_reference), and b.k "
               "designates the k-th facet (facet_reference). The model (MacroBodies.py facets → cards → join) is "
-              "compared with the code body by body (all fifteen spellings); ARB (vertex table, facet descriptors) has no "
-              "theorem: correspondence + Lean spec monitor on probe decks."),
+              "compared with the code body by body (all fifteen spellings). ARB: for any 30 entries whose non-empty facet "
+              "descriptors are admissible (three vertices of the card not on a line, centroid off their plane) the k-th "
+              "emitted plane is the k-th non-empty descriptor's plane with the centroid inside (arb_ok: digits of the "
+              "descriptors, 0/1-based numbering, number of vertices in use, centroid, orientation test)."),
         design_ref='§8 C03'),
     'C04': dict(
         technique='Lean 4 proof (orthogonality identities, quadric transport by ring, frame transport; per transformed card over an ordered field) + model↔code correspondence per transformed card + Lean point monitor over all TR/TRCL spellings',
